@@ -15,6 +15,12 @@ pub(crate) fn bare_dumper(mappings: Vec<MappingInfo>) -> PtraceDumper {
     }
 }
 
+pub(crate) fn bare_dumper_with_threads(threads: Vec<Thread>) -> PtraceDumper {
+    let mut d = bare_dumper(Vec::new());
+    d.threads = threads;
+    d
+}
+
 fn mapping(start: usize, size: usize, perms: MMPermissions) -> MappingInfo {
     MappingInfo {
         start_address: start,
